@@ -33,10 +33,9 @@ Proof.
     destruct (bytes_at_some d (pp s + 1) v) as (l & Hl & _); [lia|]. rewrite Hl. apply IH.
 Qed.
 
-(* termination measure: a label adds at least 1 to name_size (<= 255 of them, each moving the read cursor by at most 64),
-   a pointer lowers the read cursor *)
-Definition meas (s : st) : N := (255 - nsize s) * 65 + pp s.
-Theorem name_loop_fuel : forall fuel d s, nsize s <= 255 + 64 ->
+(* termination measure: a label adds 1 + len to name_size and len + 1 to the read cursor, a pointer lowers the read cursor *)
+Definition meas (s : st) : N := 2 * (319 - nsize s) + pp s.
+Theorem name_loop_fuel : forall fuel d s, nsize s <= 318 ->
   (N.to_nat (meas s) < fuel)%nat -> name_loop fuel d s <> OutOfFuel.
 Proof.
   induction fuel as [|fuel IH]; intros d s Hn Hf; [lia|]. cbn [name_loop]. unf.
@@ -57,12 +56,13 @@ Proof.
     apply IH; cbn; unfold meas in *; cbn; lia.
 Qed.
 
-(* Name::parse terminates on every buffer: the closed-form fuel |d| + 16600 is never exhausted *)
+(* Name::parse terminates on every buffer: the closed-form fuel |d| + 640 is never exhausted; it also bounds the
+   number of loop iterations of one name *)
 Theorem parse_name_terminates : forall d p, parse_name d p <> OutOfFuel.
 Proof.
   intros d p. unfold parse_name.
   destruct (len d <=? p) eqn:E.
-  - unfold name_fuel. destruct (N.to_nat (len d + 16600)) eqn:F; [lia|]. cbn [name_loop init_st pos].
+  - unfold name_fuel. destruct (N.to_nat (len d + 640)) eqn:F; [lia|]. cbn [name_loop init_st pos].
     rewrite E. discriminate.
   - apply name_loop_fuel; cbn; unfold meas, name_fuel; cbn; lia.
 Qed.
